@@ -39,7 +39,9 @@ def _one(args) -> Dict:
         text = open(path).read()
         if text.count(old) != count:
             return {"name": name, "status": "skipped", "why": f"anchor text occurs {text.count(old)}x (expected {count})"}
-        text2 = text.replace(old, new)
+        text2 = text.replace(old, new, 1) if also == "first-only" else text.replace(old, new)
+        if also == "first-only":
+            also = None
         if also:
             if text2.count(also[0]) < 1:
                 return {"name": name, "status": "skipped", "why": "second anchor missing"}
